@@ -214,6 +214,13 @@ class Puppet:
             self.X.append(rec)
             self.index.setdefault((pc, e["tick"]), len(self.X))      # 1-based
         self.stacks = stacks
+        # first position inside the final report() (calls into std follow): steps are not judged from there
+        rep = [k + 1 for k, (n, _, _) in enumerate(self.funcs) if n.endswith("::report")]
+        self.tail = len(self.X) + 1
+        for n, x in enumerate(self.X):
+            if x["fn"] in rep or x["ext"]:
+                self.tail = n + 1
+                break
         # uniqueness of (pc, tick) is what makes real stops identifiable
         if len(self.index) != len(self.X):
             dup = len(self.X) - len(self.index)
@@ -230,7 +237,8 @@ class Puppet:
                 res.setdefault(x["ln"], x["pc"])
         return res
 
-    def tla_data(self, cands, maxcmd, maxbps, root="MC", base="Session", maxbk=3):
+    def tla_data(self, cands, maxcmd, maxbps, root="MC", base="Session", maxbk=3, lifecycle=None):
+        lifecycle = getattr(self, "lifecycle", False) if lifecycle is None else lifecycle
         d = WORK / "sess" / self.key
         d.mkdir(parents=True, exist_ok=True)
 
@@ -249,6 +257,7 @@ Stacks == << {st} >>
 BpCands == {{ {", ".join(str(c) for c in sorted(cands))} }}
 Entry == {{ {entry} }}
 ExitCode == {self.native_exit if self.native_exit is not None else -1}
+TailPos == {self.tail}
 ====
 """
         (d / "XData.tla").write_text(data)
@@ -257,6 +266,7 @@ ExitCode == {self.native_exit if self.native_exit is not None else -1}
   MaxCmd = {maxcmd}
   MaxBps = {maxbps}
   MaxBk = {maxbk}
+  Lifecycle = {"TRUE" if lifecycle else "FALSE"}
 """
         return d, cfg_common
 
@@ -289,27 +299,58 @@ def run_session(exe, script, tag, timeout=180):
     return rc, err, obs
 
 
-def to_events(p, obs):
+def to_events(p, obs, attach=False):
     """Project driver observations onto the trace-event vocabulary of TraceSession.tla."""
     evs = []
+    prev_nums = {}
+    base = {"ok": True, "err": "", "addrs": [], "idx": 0, "said": "none", "rpc": -1, "rline": -1, "code": -1,
+            "patched": [-1], "bt": [-1], "tick": -1, "panic": False, "nums_kept": True, "gone": True,
+            "alive": True, "running": True, "dr_armed": False}
     for o in obs:
+        if o.get("ev") == "released":
+            dr = o.get("dr7") or {}
+            armed = [t for t, v in dr.items() if isinstance(v, int) and (v & 0xFF) != 0]
+            bad = [t for t, v in dr.items() if not isinstance(v, int)]
+            st = o.get("proc_state")
+            tasks = o.get("tasks") or {}
+            e = dict(base)
+            e.update({"cmd": "released", "alive": st is not None and st != "Z" or o.get("exit_code") is not None,
+                      "running": all(v in ("R", "S", "D") for v in tasks.values()) if tasks else True,
+                      "patched": sorted(o["patched"]) if o.get("patched") is not None else [-1],
+                      "dr_armed": bool(armed), "code": o["exit_code"] if o.get("exit_code") is not None else -1,
+                      "err": json.dumps({"state": st, "tasks": tasks, "dr7": dr, "probe_errors": bad})[:300], "k": 10 ** 6,
+                      "stdout": o.get("stdout")})
+            evs.append(e)
+            continue
         if o.get("ev") != "obs":
             continue
         c, res, after, hooks = o["cmd"], o["res"], o.get("after", {}), o.get("hooks", [])
         name = c["cmd"]
+        if attach and name == "continue" and not any(x["cmd"] in ("start", "continue") for x in evs):
+            name = "start"        # the attached process waits before main: same reference as a start
         ok = bool(res.get("ok"))
         err = res.get("err") or res.get("panic") or ""
         patched = after.get("patched")
-        e = {"cmd": name, "ok": ok, "err": str(err)[:200], "addrs": [], "idx": 0, "said": "none", "rpc": -1,
-             "rline": -1, "code": -1, "patched": sorted(patched) if patched is not None else [-1], "bt": [-1],
-             "tick": after.get("tick") if after.get("tick") is not None else -1, "panic": "panic" in res}
+        e = dict(base)
+        e.update({"cmd": name, "ok": ok, "err": str(err)[:200], "patched": sorted(patched) if patched is not None else [-1],
+                  "tick": after.get("tick") if after.get("tick") is not None else -1, "panic": "panic" in res})
+        nums = {v["num"]: v["link"] for v in (after.get("snapshot") or []) if v.get("line") is not None or v["kind"] == "reloc" or True}
+        if name == "drop":
+            tasks = after.get("tasks") or {}
+            e["gone"] = after.get("proc_state") is None and not tasks
+            e["err"] = json.dumps({"state": after.get("proc_state"), "tasks": tasks, "panic": res.get("panic")})[:300]
+            e["k"] = o["k"]
+            evs.append(e)
+            continue
         if name in ("break_addr", "break_line", "break_fn"):
             e["cmd"] = "break"
             e["addrs"] = sorted({v["link"] for v in (res.get("ret") or [])}) if ok else []
         elif name in ("remove_addr", "remove_line", "remove_fn", "remove_num"):
             e["cmd"] = "remove"
             e["addrs"] = sorted({v["link"] for v in (res.get("ret") or [])}) if ok else []
-        elif name in ("start", "continue", "stepi", "step", "next", "finish"):
+        elif name in ("start", "continue", "stepi", "step", "next", "finish", "restart"):
+            if name == "restart":
+                e["nums_kept"] = (set(nums) == set(prev_nums)) if prev_nums else True
             kinds = [h["hook"] for h in hooks]
             ret = res.get("ret") or {}
             exited = ("exit" in kinds) or ret.get("kind") == "exit" or not after.get("alive", True)
@@ -333,7 +374,7 @@ def to_events(p, obs):
                     e["said"] = "step"
                 hk = [h for h in hooks if h["hook"] in ("breakpoint", "step")]
                 if hk:
-                    e["rpc"] = hk[-1]["pc"] - (0x555555554000 if p.meta.get("pie") else 0)
+                    e["rpc"] = hk[-1]["pc"] - (after["rip_bias"] if "rip_bias" in after else (0x555555554000 if p.meta.get("pie") else 0))
                     pl = hk[-1].get("place")
                     e["rline"] = pl["line"] if pl else -1
                 elif after.get("ecx_pc") is not None:
@@ -345,6 +386,8 @@ def to_events(p, obs):
         else:
             e["cmd"] = name
         e["k"] = o["k"]
+        if after.get("snapshot") is not None:
+            prev_nums = nums
         evs.append(e)
     return evs
 
